@@ -46,8 +46,8 @@ TRUSTED = [
     'tools/impl/ids_driver.py (calls the real pycardano API), generator in tools/props/c17.py',
 ]
 ASSUMPTIONS = [
-    'H_inj H n (no two messages with one BLAKE2b-n digest) is a hypothesis of C17_separation, C17_tx_id_binds only; '
-    'satisfiable (Example with H = identity); C17_separation_collision is the hypothesis-free form',
+    'H_inj H n (no two messages with one BLAKE2b-n digest) is a hypothesis of C17_separation, C17_tx_id_binds and '
+    'C17_fingerprint_binds only; satisfiable (Example with H = identity); C17_separation_collision is the hypothesis-free form',
     'an ordinary (non-extended) verification key object holds 32 bytes (VerificationKey.hash hashes the whole payload)',
     'native-script integers are unsigned (< 2^64 for the injectivity theorem); bech32 is abstract in the theorems',
     'the id of a decoded transaction is the digest of the RE-ENCODED body (whether that equals the received bytes is C03)',
